@@ -236,6 +236,86 @@ func (o *Once) Do(f func()) {
 	}
 }
 
+// ------------------------------------------------------------------ Pool / Map / Cond
+
+// Pool replaces sync.Pool by a deterministic LIFO free list.  sync.Pool may hand back any object
+// put earlier or a fresh one (per-P caches, GC); the free list always hands back the most recently
+// put object, which is one of the behaviours sync.Pool allows and the one that exposes state left
+// in a recycled object.  No scheduling point: Get and Put never block.
+type Pool struct {
+	New   func() any
+	mu    sync.Mutex
+	items []any
+}
+
+func (p *Pool) Get() any {
+	p.mu.Lock()
+	if n := len(p.items); n > 0 {
+		x := p.items[n-1]
+		p.items = p.items[:n-1]
+		p.mu.Unlock()
+		return x
+	}
+	p.mu.Unlock()
+	if p.New != nil {
+		return p.New()
+	}
+	return nil
+}
+
+func (p *Pool) Put(x any) {
+	if x == nil {
+		return
+	}
+	p.mu.Lock()
+	p.items = append(p.items, x)
+	p.mu.Unlock()
+}
+
+// Map is sync.Map itself: its operations are atomic and never block.
+type Map = sync.Map
+
+// Cond: waiting is a scheduling point whose enabledness is "signalled since the wait began".
+type Cond struct {
+	L     Locker
+	real  *sync.Cond
+	epoch int
+}
+
+func NewCond(l Locker) *Cond { return &Cond{L: l, real: sync.NewCond(l)} }
+
+func (c *Cond) Wait() {
+	if rt.CurMode == rt.Free {
+		c.real.Wait()
+		return
+	}
+	w := rt.W
+	e := c.epoch
+	c.L.Unlock()
+	if w != nil && !w.Dead() && w.Cur != nil {
+		w.Point(rt.Op{Kind: rt.OpWait, Obj: c, Enabled: func() bool { return c.epoch != e }})
+	}
+	c.L.Lock()
+}
+
+func (c *Cond) Signal() {
+	if rt.CurMode == rt.Free {
+		c.real.Signal()
+		return
+	}
+	c.epoch++
+}
+
+func (c *Cond) Broadcast() {
+	if rt.CurMode == rt.Free {
+		c.real.Broadcast()
+		return
+	}
+	c.epoch++
+}
+
+func OnceFunc(f func()) func() { return sync.OnceFunc(f) }
+
 // ------------------------------------------------------------------ Go
 
 // Go replaces the `go` statement.
